@@ -123,6 +123,7 @@ func c17Eval(r *vkit.Run, in c17Input) bool {
 // c17Query parses text (must not panic); if it parses, evaluates it against every content, instant and range.
 func c17Query(r *vkit.Run, text string) bool {
 	r.Step(1)
+	r.Begin("C17", c17Input{Query: text, Content: -1}) // the parser itself may fail to terminate
 	if len(text) > 40 {
 		r.Journal("C17", c17Input{Query: text, Content: -1})
 	}
@@ -161,7 +162,7 @@ var c17Vocab = []string{
 }
 
 func c17Run(r *vkit.Run) {
-	vkit.StallSeconds = 400 // C17 runs its own 20 s / 120 s watchdog per evaluation
+	vkit.StallSeconds = 200 // evaluations have their own 20 s / 120 s watchdog; this one guards the parser
 	thorough := r.Thorough()
 	idx := 0
 	stop := false
